@@ -82,6 +82,8 @@ def vsize(r, env):
 
 def vclass(r):
     k = r[0]
+    if k == "slice" and r[1][0] in ("vpow", "vfn", "slice") and vclass(r[1]) in ("pow", "un"):
+        return vclass(r[1])  # a slice of x ** k / f(x) is again an element-wise result
     if k in ("view", "vvar", "slice", "row", "col", "diag", "miter"):
         return "var"
     if k in ("vbin", "vneg", "matvec", "mvarvec", "vexpr"):
